@@ -14,7 +14,8 @@ ID = "C15"
 LEVEL = "exploration"
 RULE = ("A directory (real, or inside a ZIP with the full handler list) of 1-4 items (files with typed extensions, HTML, "
         "sub-directories, an mbox) each with a generated subset of the sidecars .abstract/.keywords/.ask/.3d holding 1-10 "
-        "printable lines (lines starting with '+', interior empty lines, optional final newline). Requests: '$' on the "
+        "printable lines (lines starting with '+', interior empty lines, optional final newline), optionally with a UMN "
+        "override of the same item (.names block or .cap file giving it another name / number). Requests: '$' on the "
         "directory, '!' on every item, '+' on every document. Oracles: k-th +INFO line == k-th plain Gopher menu line; "
         "+ADMIN carries the configured admin and the object's Mod-Date; +VIEWS names the reference MIME type and a size "
         "within 1 KiB; exactly one block per sidecar whose lines (minus the leading blank) are the file's lines; every "
@@ -66,7 +67,9 @@ def _case(draw):
             for ext, _ in EA:
                 if draw(st.integers(0, 2)) == 0:
                     side[ext] = draw(_sidecar())
-        items.append({"name": name, "kind": kind, "size": draw(st.sampled_from([0, 1, 500, 1023, 1024, 1025, 5000])), "side": side})
+        items.append({"name": name, "kind": kind, "size": draw(st.sampled_from([0, 1, 500, 1023, 1024, 1025, 5000])), "side": side,
+                      # a UMN override of the same item (display name / number): the sidecar blocks must survive the merge
+                      "override": draw(st.sampled_from([None, None, "names", "cap", "names-numb"]))})
     if not items:
         items.append({"name": "a.txt", "kind": "txt", "size": 10, "side": {".abstract": {"lines": ["x"], "final_nl": True}}})
     return {"items": items, "inzip": draw(st.sampled_from([False, False, True])), "depth": draw(st.sampled_from([0, 1])),
@@ -106,6 +109,15 @@ def _entries(case):
             it["_len"] = len(content)
             for ext, sc in it["side"].items():
                 spec.append([n + ext, "f", _sc_text(sc)])
+    blocks = []
+    for i, it in enumerate(case["items"]):
+        ov = it.get("override")
+        if ov == "cap":
+            spec.append([".cap/" + it["name"], "f", "Name=Capped %d\n" % i])
+        elif ov:
+            blocks.append("Path=./%s\nName=Renamed %d\n%s" % (it["name"], i, "Numb=%d\n" % (i + 1) if ov == "names-numb" else ""))
+    if blocks:
+        spec.append([".names", "f", "\n".join(blocks)])
     return spec
 
 
@@ -228,6 +240,8 @@ def check_case(case, ctx):
                 continue  # sidecars the ignore pattern lets through (.keywords) and similar: blocks not modelled
             if it["side"] or inzip or it["kind"] == "mbox":
                 ctx.nontriv((ctx._hash(), it["name"]))
+            if it["side"] and it.get("override"):
+                ctx.label("sidecar+override:" + it["override"])
             fails += _check_item_blocks(it, item, cfg, inzip, "$ %s item %s" % (dsel, it["name"]), admin)
         # '!' on every item and '+' on every document
         for selb, it in by_sel.items():
@@ -241,7 +255,7 @@ def check_case(case, ctx):
                 fails.append(Fail("bang-items", "! on %r returned %d items" % (selb, len(its))))
                 continue
             fails += _check_item_blocks(it, its[0], cfg, inzip, "! %s" % world.u(selb), admin)
-            if case["extstrip"] == "none":
+            if case["extstrip"] == "none" and not any(i_.get("override") for i_ in case["items"]):
                 mine = [l for l in plain if l.split(b"\t")[1:2] == [selb]]
                 if mine and its[0].get("infoline") != mine[0]:
                     fails.append(Fail("info-vs-menu:bang", "! on %r: +INFO %r differs from the parent menu line %r" % (selb, its[0].get("infoline"), mine[0])))
